@@ -129,6 +129,7 @@ def traitOf (g : Grammar) (self : Nat) (k : Kind) : AEntry :=
   | .enable c => ⟨.seq, [.node c]⟩
   | .disable c => ⟨.seq, [.node c]⟩
   | .action _ c => ⟨.seq, [.node c]⟩
+  | .state _ c => ⟨.seq, [.node c]⟩                       -- analyze_traits< Name, typename seq< Rules... >::rule_t >
 
 /-- How many auxiliary types the trait of kind `k` creates. -/
 def auxCount (g : Grammar) (k : Kind) : Nat :=
